@@ -15,7 +15,7 @@ from ..gen import triggers
 
 SUBJECT_EXCLUDED = {"lazy-ignores"}  # its subject is the suppression comments themselves
 CM = {"py": "#", "ts": "//", "js": "//", "rs": "//"}
-FORMS = ["same-line", "next-line", "block", "block2", "file@1", "file@5", "file@10", "file@11", "file@40", "thailintignore", "config-ignore", "linter-ignore"]
+FORMS = ["same-line", "next-line", "block", "block2", "same-line-under-foreign-next-line", "file@1", "file@5", "file@10", "file@11", "file@40", "thailintignore", "config-ignore", "linter-ignore"]
 SPELLINGS = ["full", "prefix", "wildcard", "upper", "mixed-list", "bare", "wildcard-upper", "wildcard-mixed-case", "prefix-mixed-case", "full-mixed-case",
              "bare-trailing-ws", "full-trailing-ws",  # (blanks / a tab after the directive, which an editor or a formatter may leave)
              "full-after-other-tool"]  # (the directive follows another tool's own ignore[...] comment on the same line)
@@ -118,6 +118,19 @@ def apply(files, f, line, form, names, placement="on"):
         lines.insert(s - 1, ind + a)
         out[f] = "\n".join(lines)
         return out, (lambda l: l + 1 if s <= l <= e else (l + 2 if l > e else l)), (lambda l: s <= l <= e)
+    if form == "same-line-under-foreign-next-line":
+        # two directives about the same statement: an ignore-next-line naming some OTHER rule above it, the directive under test on the line itself
+        if placement != "on":
+            return None
+        r1 = apply(files, f, line, "next-line", ["totally-different.rule"], "on")
+        if r1 is None:
+            return None
+        f1, shift1, _ = r1
+        r2 = apply(f1, f, shift1(line), "same-line", names, "on")
+        if r2 is None:
+            return None
+        f2, _, _ = r2
+        return f2, shift1, (lambda l, t=line: l == t)
     if form == "block2":
         # the target block is the SECOND properly closed block of the file: a first block for the same rule encloses a plain comment above
         a, b = directive(cm, "block", names)
@@ -262,10 +275,10 @@ def run_flavour(ctx, rng, files, flavour, matrix):
             forms = list(FORMS)
             if c == "file-placement":
                 # the finding has no construct line (line 1 by convention): only same-line@1, file-level and pattern forms apply
-                forms = [x for x in forms if x not in ("next-line", "block", "block2")]
+                forms = [x for x in forms if x not in ("next-line", "block", "block2", "same-line-under-foreign-next-line")]
             if c == "file-header":
                 # header-sensitive: a comment inserted at the top of the file changes the header itself
-                forms = [x for x in forms if x not in ("next-line", "block", "block2", "file@1")]
+                forms = [x for x in forms if x not in ("next-line", "block", "block2", "same-line-under-foreign-next-line", "file@1")]
             if flavour:
                 forms = [x for x in forms if x in ("same-line", "next-line", "block", "file@10", "file@11")]
             for form in forms:
